@@ -312,6 +312,11 @@ def repr_kind(variant):
 def compare_repr(case, ep, variant, tag, res1, res2, o, amp, precision, gap_ok, unit=None):
     out1, out2 = res1[0], res2[0]
     mech0 = {'entry': ep.name, 'relation': 'repr:' + variant, 'repr_kind': repr_kind(variant)}
+    well = None
+    if len(res1) > 2 and len(res2) > 2 and res1[2] is not None and len(res1[2]) == len(res2[2]):
+        with np.errstate(invalid='ignore'):
+            well = (np.asarray(res1[2]) <= epm.COND_MAX) & (np.asarray(res2[2]) <= epm.COND_MAX)
+        case.note(f'rows_ill_conditioned:{ep.name}', int((~well).sum()))
     k1, k2 = set(out1), set(out2)
     if not case.check(k1 == k2, 'outputs_present', dict(mech0, output='*'),
                       only_base=sorted(k1 - k2), only_variant=sorted(k2 - k1), tag=tag):
@@ -357,6 +362,9 @@ def compare_repr(case, ep, variant, tag, res1, res2, o, amp, precision, gap_ok, 
                 case.check(uo == ub, 'unit', mech, observed=uo, expected=ub)
         else:
             case.check(ub == uo, 'unit', mech, base=ub, variant=uo)
+        if k.md and k.per_row and well is not None and isinstance(cb, np.ndarray) and isinstance(co, np.ndarray) \
+                and cb.shape[:1] == well.shape and co.shape[:1] == well.shape:
+            cb, co = cb[well], co[well]
         is_int = kind in epm.INT_KINDS or (kind == 'frame' and np.asarray(cb).dtype.kind in 'iub')
         if precision and (is_int or name in ('n', 'nlabels', 'id', 'label_ids', 'labels', 'areas', 'npix',
                                              'npixfit', 'group_id', 'group_size', 'flags')):
